@@ -34,8 +34,8 @@ fn main() {
             let seed: u64 = a.get(3).and_then(|s| s.parse().ok()).unwrap_or(0);
             let open: Vec<String> = a.get(4).map(|s| s.split(',').map(|x| x.to_string()).collect()).unwrap_or_default();
             match cases::search(&a[2], seed, &open) {
-                Some((tried, Some((input, o)))) => println!("{}", json!({"found": true, "tried": tried, "holds": o.holds, "observed": o.observed, "expected": o.expected, "input": input})),
-                Some((tried, None)) => println!("{}", json!({"found": false, "tried": tried})),
+                Some((tried, Some((input, o)), _)) => println!("{}", json!({"found": true, "tried": tried, "holds": o.holds, "observed": o.observed, "expected": o.expected, "input": input})),
+                Some((tried, None, samples)) => println!("{}", json!({"found": false, "tried": tried, "samples": samples.iter().map(|(i, o)| json!({"input": i, "observed": o})).collect::<Vec<_>>()})),
                 None => { println!("{}", json!({"error": format!("no search for case {}", a[2])})); std::process::exit(3) }
             }
         }
